@@ -211,6 +211,12 @@ class Normalizer:
         return Form(Rat(Poly.atom(name)))
 
     def form(self, e: ast.expr) -> Form:
+        if self.atom_hook is not None and isinstance(e, (ast.Call, ast.Subscript)):
+            name = self.atom_hook(e)
+            if name is not None:
+                name = self.rename.get(name, name)
+                self.atoms.setdefault(name, e)
+                return Form(Rat(Poly.atom(name)))
         if isinstance(e, ast.Constant):
             if isinstance(e.value, bool) or not isinstance(e.value, (int, float)):
                 raise NTop(f"constant {e.value!r}")
